@@ -91,10 +91,9 @@ def _build(d):
     focus = []
     for _ in range(nf):
         if names and d.pick(3) == 0:
-            nm = d.choice([n for n in names if 'addr' in n] or names)
-            if 'addr' in nm:
-                focus.append(nm['name'])
-                continue
+            nm = d.choice(names)
+            focus.append(nm['name'])    # a cell name or a RANGE name
+            continue
         if model['order'] and d.pick(4):
             focus.append(d.choice(model['order']))
         else:
@@ -232,6 +231,20 @@ def judge(case):
         res.fail('extract-changes-original', 'unchanged', [
             k for k in before if before[k] != after[k]], focus)
         return res
+    # a focused RANGE name cannot be evaluated (the evaluator says so); its
+    # cells must be in the extract
+    range_focus = [f for f in focus if f in names and 'range' in names[f]]
+    focus = [f for f in focus if f not in range_focus]
+    for f in range_focus:
+        sh_, rng_ = names[f]['range'].split('!')
+        need_r = [sh_ + '!' + a for row in R.range_cells(rng_) for a in row]
+        miss = sorted(a for a in need_r if a in m.cells and (
+            m.cells[a].formula is not None or m.cells[a].value not in (
+                None, '')) and a not in ex.cells)
+        if miss or f not in ex.defined_names:
+            res.fail('range-name-focus-not-extracted', need_r,
+                     miss or 'name missing', f)
+            return res
     faddr = [names[f]['addr'] if f in names else f for f in focus]
     dp = GM.deps(rmodel)
     depth = max([GM.depth(rmodel, a, dp) for a in faddr] + [0])
